@@ -126,3 +126,36 @@ func (m *ModelState) Apply(o *Op) []bool {
 	}
 	return out
 }
+
+// ApplyAbandoned gives every state an operation may leave behind when its client abandoned it while it was
+// in flight and saw the verdicts got: a position reported as signed must be one the model signs, and its
+// effect is recorded; a position not reported as signed that the model would have signed may or may not
+// have left its record (the server may stop early, or finish the work and have nobody to tell).
+func (m *ModelState) ApplyAbandoned(o *Op, got []bool) []*ModelState {
+	full := m.Clone()
+	want := full.Apply(o)
+	var open []int
+	for i := range want {
+		if i < len(got) && got[i] && !want[i] {
+			return nil
+		}
+		if want[i] && !(i < len(got) && got[i]) {
+			open = append(open, i)
+		}
+	}
+	if len(open) > 8 {
+		open = open[:8]
+	}
+	var out []*ModelState
+	for mask := 0; mask < 1<<len(open); mask++ {
+		st := full.Clone()
+		for b, i := range open {
+			if mask&(1<<b) == 0 {
+				// effect of position i absent: its key keeps the watermark it had (keys are distinct within a request)
+				st.W[o.Entries[i].Acct] = m.W[o.Entries[i].Acct]
+			}
+		}
+		out = append(out, st)
+	}
+	return out
+}
